@@ -16,6 +16,7 @@ rejects is a violation; a mere difference in behaviour the statement leaves open
 """
 from __future__ import annotations
 
+import concurrent.futures
 import json
 import os
 import random
@@ -755,14 +756,18 @@ def run(tier, seed, replay=None):
         r7 = run_tlc("TunnelEndpoint.tla", "TunnelEndpoint_d4.cfg")
         ntr, tlen, controls = 40, 200, ("raw", "closing")
     elif tier == "quick":
-        r7 = run_tlc("TunnelEndpoint.tla", "TunnelEndpoint_d7.cfg")
-        phase("tlc_exhaustive")
+        # the exhaustive run (16 workers) overlaps with the single-threaded replays
+        pool = concurrent.futures.ThreadPoolExecutor(1)
+        fut7 = pool.submit(run_tlc, "TunnelEndpoint.tla", "TunnelEndpoint_d7.cfg")
         replay_graph(ctx, rp, "TunnelEndpoint_d3.cfg", "d3", 3, 0)          # every path of 3 events
         phase("replay_paths")
         replay_graph(ctx, rp, "TunnelEndpoint_d4.cfg", "d4", 0, 10000)      # seeded part of the transition cover
         phase("replay_cover")
         replay_simulated(ctx, rp, 300, 50)
         phase("replay_simulated")
+        r7 = fut7.result()
+        pool.shutdown()
+        phase("tlc_exhaustive_wait")
         ntr, tlen = 40, 200
         controls = ("raw", "closing")
     else:
